@@ -103,6 +103,12 @@ FIXED = [
      'dba / dba_loop on a list of array.array raised TypeError (average of shape (t, False))', None),
     ('F47', 'C20', 'fix: dba_loop(use_c=True) required the initial average to have a .copy() method',
      'dba_loop(list of array.array, use_c=True) raised AttributeError (array.array has no copy)', None),
+    ('F48', 'C20', "fix: Hierarchical.fit wrote only_triu into the caller's options dictionary",
+     "opts={'window':2}; Hierarchical(dtw.distance_matrix, opts).fit(S); dtw.distance(a, b, **opts) raised TypeError (only_triu), distance_matrix(S, **opts) came back half filled", None),
+    ('F49', 'C20', "fix: SubsequenceSearch modified the caller's dists_options dictionary",
+     'subsequence_search(q, S, dists_options=opts, max_dist=m).kbest_matches(2) left max_dist = best distance found (and use_c) in opts; a later distance_matrix(S, **opts) returned inf entries', None),
+    ('F50', 'C20', 'fix: LocalConcurrences.kbest_matches(restart=True) did not restart on a full matrix',
+     'lc = local_concurrences(s, None, ...); lc.kbest_matches(k=2) twice on the Python (non-compact) matrix: the second call returned the 3rd and 4th best matches', None),
 ]
 
 OPEN = [
